@@ -157,6 +157,11 @@ func (w *simWorld) RoundTrip(req *http.Request) (*http.Response, error) {
 			return nil, err
 		}
 	}
+	if f != nil && f.Kind != "errors_partial" && f.Kind != "entity_null" {
+		// the request fails before the service looks at it (a mutation is NOT applied)
+		rec.Fault = f.Kind
+		return w.faultReply(req, rec, f, "")
+	}
 	if verr != nil {
 		reply := `{"errors":[{"message":` + jsonString("validation: "+verr.Error()) + `}],"data":null}`
 		rec.Reply = reply
@@ -172,11 +177,6 @@ func (w *simWorld) RoundTrip(req *http.Request) (*http.Response, error) {
 	x := &execCtx{schema: svc.Schema, data: w.data, vars: in.Variables, fed: w.fed, svc: svc}
 	var effects []string
 	x.effects = &effects
-	if f != nil && f.Kind != "errors_partial" && f.Kind != "entity_null" {
-		// the request fails before the service does anything (a mutation is NOT applied)
-		rec.Fault = f.Kind
-		return w.faultReply(req, rec, f, "")
-	}
 	if x.vars == nil {
 		x.vars = map[string]interface{}{}
 	}
